@@ -158,7 +158,7 @@ def select(fn, env):
     return "return", None
 
 
-def effects(body, env, what="block"):
+def effects(body, env, what="block", pinned=()):
     """Abstract execution of a statement list for one assignment of its inputs: the list of effects it performs.
 
     Effects: ("store", target text, value text) for subscript/attribute stores, ("aug", target text, op, value text),
@@ -184,6 +184,8 @@ def effects(body, env, what="block"):
                 block(st.body if tv else st.orelse, sink)
             elif isinstance(st, ast.Assign) and len(st.targets) == 1 and isinstance(st.targets[0], ast.Name):
                 name = st.targets[0].id
+                if name in pinned:
+                    continue  # an input the caller fixes although the code computes it (e.g. a file extension)
                 try:
                     env[name] = value(st.value, env)
                     sink.append(("set", name, env[name]))
@@ -193,6 +195,9 @@ def effects(body, env, what="block"):
             elif isinstance(st, ast.Assign):
                 for t in st.targets:
                     sink.append(("store", unparse(t), unparse(st.value)))
+                    for n in ast.walk(t):
+                        if isinstance(n, ast.Name) and isinstance(n.ctx, ast.Store) and n.id not in pinned:
+                            env.pop(n.id, None)
             elif isinstance(st, ast.AugAssign):
                 sink.append(("aug", unparse(st.target), type(st.op).__name__, unparse(st.value)))
                 if isinstance(st.target, ast.Name):
@@ -213,11 +218,19 @@ def effects(body, env, what="block"):
                 # leaves the iteration being executed: nothing after it in this iteration happens
                 sink.append((type(st).__name__.lower(),))
                 raise _Stop()
-            elif isinstance(st, (ast.Return, ast.Raise, ast.While, ast.With, ast.Try)):
+            elif isinstance(st, ast.Return):
+                sink.append(("return", unparse(st.value) if st.value is not None else None))
+                if sink is not out:
+                    raise AnalysisError("%s: return inside a loop body is not modelled by the effect analysis" % what)
+                raise _Ret(st.value)
+            elif isinstance(st, ast.Raise):
+                sink.append(("raise",))
+                raise _Ret(None)
+            elif isinstance(st, (ast.While, ast.With, ast.Try)):
                 raise AnalysisError("%s: statement kind the effect analysis does not model: %s" % (what, unparse(st)[:60]))
 
     try:
         block(body, out)
-    except _Stop:
+    except (_Stop, _Ret):
         pass
     return out
